@@ -66,7 +66,7 @@ def gen_c(rng):
             f = rng.choice(['exp', 'sqrt', 'conjugate']); a = rng.choice(avail)
             line = '%s = exp(%s / 8)' % (v, a) if f == 'exp' else '%s = %s(%s)' % (v, f, a); uses = [a]
         elif k < 0.5:
-            a = rng.choice(avail); c = rng.choice(['2.5', '(1.5+2j)', '(-0.5j)', '(3+0j)'])      # no unit parts: x*(1+2j) reuses x as a component (known defect family)
+            a = rng.choice(avail); c = rng.choice(['2.5', '(1+2j)', '(1.5+2j)', '(-0.5j)', '(3+0j)', '1j'])      # unit parts included: x*(1+2j) must not reuse x as a component (fixed 90e41db)
             line = rng.choice(['%s = %s * %s', '%s = %s / %s']) % (v, a, c) if rng.random() < 0.6 else '%s = %s * %s' % (v, c, a); uses = [a]
         else:
             o = rng.choice(['+', '-', '*', '/']); a = rng.choice(avail); b = rng.choice(avail)
